@@ -330,8 +330,11 @@ impl World for SatWorld {
             gen_cnf_ops(&mut c, &mut o, nv, if wide { 14 } else { 8 })
         };
         let ncallers = 1 + c.below(3);
-        let pop_w = 15 + c.below(40);
-        let len = 1 + o.below(if thorough { 120 } else { 50 }) + if hub { 60 } else { 0 };
+        // one small run in 300 is a marathon: a long-lived solver that sees 150 000 - 250 000 decide/pop calls
+        // (about as many decisions as pops, so the stack stays shallow and most decisions are top-level ones)
+        let marathon = !big && c.below(300) == 0;
+        let pop_w = if marathon { 50 } else { 15 + c.below(40) };
+        let len = if marathon { 150_000 + o.below(100_000) } else { 1 + o.below(if thorough { 120 } else { 50 }) + if hub { 60 } else { 0 } };
         for _ in 0..len {
             let caller = s.below(ncallers) as u8;
             if o.below(100) < pop_w {
@@ -444,7 +447,8 @@ impl World for SatWorld {
             r.sort();
             r
         };
-        let mut seen_hash: BTreeMap<u128, Vec<Vec<(usize, bool)>>> = BTreeMap::new();
+        let n_lits_norm: usize = norm.iter().map(|c| c.len()).sum();
+        let mut seen_hash: BTreeMap<u128, (u128, Vec<Vec<(usize, bool)>>)> = BTreeMap::new();
 
         // all invariants of a reachable state
         let mut check_state = |ctx: &mut Ctx, s: &SATSolver, decisions: &[(usize, bool)], what: &str, entailed_before: &std::collections::BTreeSet<(usize, bool)>| -> R {
@@ -505,18 +509,38 @@ impl World for SatWorld {
             ctx.check("C09", "sat-flag-iff-all-clauses-satisfied", s.is_sat() == all_sat, || {
                 format!("{what}: is_sat() = {} but 'every non-tautological clause has a true literal' is {} under {:?}", s.is_sat(), all_sat, m)
             })?;
-            // 5. equal hashes only for identical residual formulas
-            if product_fits {
+            // 5. equal hashes only for identical residual formulas. When the product of all literal primes
+            // fits in 128 bits this is exact; beyond that the library's wrapping product could collide in
+            // principle (which would be a violation of the property as stated) but a coincidence modulo 2^128
+            // is treated as impossible, exactly like a collision of two 64-bit semantic hashes in C11.
+            {
                 let r = residual(&m);
+                let digest = {
+                    let (mut a, mut b) = (0x9e3779b97f4a7c15u64, 0xc2b2ae3d27d4eb4fu64);
+                    for c in r.iter() {
+                        a = mix(a, 0xC1A);
+                        b = mix(b, 0xC1B);
+                        for (v, p) in c.iter() {
+                            a = mix(a, (*v as u64) << 1 | *p as u64);
+                            b = mix(b ^ 0x55, (*v as u64) << 1 | *p as u64);
+                        }
+                    }
+                    (a as u128) << 64 | b as u128
+                };
                 let h = s.cur_hash();
                 match seen_hash.get(&h) {
-                    Some(prev) => {
-                        ctx.check("C09", "sat-equal-hash-different-residual", *prev == r, || {
-                            format!("{what}: hash {h} was seen for residual {:?} and now for residual {:?}", prev, r)
+                    Some((prev_digest, prev)) => {
+                        ctx.check("C09", "sat-equal-hash-different-residual", *prev_digest == digest, || {
+                            if n_lits_norm <= 400 {
+                                format!("{what}: hash {h} was seen for residual {:?} and now for residual {:?}", prev, r)
+                            } else {
+                                format!("{what}: hash {h} was seen for two different residual formulas ({} and {} clauses left; digests {prev_digest:#x} / {digest:#x}); decisions now {:?}", prev.len(), r.len(), decisions)
+                            }
                         })?;
                     }
                     None => {
-                        seen_hash.insert(h, r);
+                        // the residual itself is only kept for small formulas (for the report)
+                        seen_hash.insert(h, (digest, if n_lits_norm <= 400 { r } else { vec![Vec::new(); r.len()] }));
                     }
                 }
             }
@@ -641,7 +665,7 @@ impl World for SatWorld {
         ctx.count("decisions-accepted", n_push);
         ctx.count("decisions-refused", n_unsat);
         ctx.count("pops", n_pop);
-        ctx.count("hash-check-applicable", product_fits as u64);
+        ctx.count("hash-check-exact-product-fits-128-bits", product_fits as u64);
         ctx.count("large-instances(dpll-oracle)", (!small) as u64);
         ctx.nontrivial = n_push >= 1 && !clauses.is_empty();
         ctx.states.extend(seen_hash.keys().map(|h| mix(*h as u64, (*h >> 64) as u64)));
